@@ -170,6 +170,168 @@ def typeLines (fuel : Nat) : List Str → St F → St F
     | .ok _ s' => typeLines fuel ls s'
     | .err _ s' => typeLines fuel ls s'
 
+/-! ### Web adapter (abasic-web/src/lib.rs) and page script (abasic-web/ts/main.ts, class `Interpreter`)
+
+`none` everywhere below is a trap: a Rust `assert!`/`panic!` (which aborts the wasm instance) or the
+page's own "assertion failure" exception. -/
+
+structure Js (F : Type) where
+  core : St F := {}
+  latest : Option Str := none
+
+inductive JsState where
+  | idle | running | awaitingInput | errored
+  deriving DecidableEq, Repr
+
+namespace Js
+
+/-- `maybe_replace_interpreter` -/
+def maybeReplace (s : St F) : St F := if s.state == .newRequested then {} else s
+
+/-- `JsInterpreter::start_evaluating` -/
+def startEvaluating (fuel : Nat) (line : Str) (j : Js F) : Option (Js F) :=
+  if j.latest.isSome then none
+  else
+    match Abasic.startEvaluating fuel line j.core with
+    | .ok _ s => some { core := maybeReplace s, latest := none }
+    | .err e s =>
+      if e.err.isPanic then none
+      else
+        match caretLines s e (some line) with
+        | none => none
+        | some ls => some { core := s, latest := some (joinWith ['\n'] (errText e :: ls)) }
+
+/-- `JsInterpreter::continue_evaluating` -/
+def continueEvaluating (fuel : Nat) (j : Js F) : Option (Js F) :=
+  if j.latest.isSome then none
+  else
+    match Abasic.continueEvaluating fuel j.core with
+    | .ok _ s => some { core := maybeReplace s, latest := none }
+    | .err e s => if e.err.isPanic then none else some { core := s, latest := some (errText e) }
+
+/-- `JsInterpreter::get_state` -/
+def getState (j : Js F) : Option JsState :=
+  if j.latest.isSome then some .errored
+  else
+    match j.core.state with
+    | .idle => some .idle
+    | .running => some .running
+    | .awaitingInput => some .awaitingInput
+    | .newRequested => none
+
+/-- `JsInterpreter::provide_input` -/
+def provideInput (text : Str) (j : Js F) : Option (Js F) :=
+  match Abasic.provideInput text j.core with
+  | .ok _ s => some { j with core := s }
+  | .err _ _ => none
+
+/-- `JsInterpreter::break_at_current_location` -/
+def breakAt (j : Js F) : Js F :=
+  match breakAtCurrentLocation j.core with
+  | .ok _ s => { j with core := s }
+  | .err _ s => { j with core := s }
+
+/-- `take_latest_output`: (type, text) of every record, in order -/
+def takeOutput (j : Js F) : List Out × Js F :=
+  let (outs, s) := Abasic.takeOutput j.core
+  (outs, { j with core := s })
+
+end Js
+
+/-- what the page shows: (css class or "print"/"prompt", text) -/
+abbrev Ui := List (String × Str)
+
+structure Page (F : Type) where
+  js : Js F := {}
+  interactive : Bool := true
+  /-- timer callbacks scheduled by `window.setTimeout(handleCurrentState, 5)` and not yet fired -/
+  ticks : Nat := 0
+  /-- everything printed so far, oldest first -/
+  ui : Ui := []
+
+/-- `showOutput` -/
+def showRecord : Out → String × Str
+  | .print s => ("print", s)
+  | .trace n => ("info", outText (.trace n) ++ [' '])
+  | o => ("warning", outText o ++ ['\n'])
+
+def splitOnLF (s : Str) : List Str := splitLF s
+
+/-- `handleCurrentState` (the recursion after showing an error is bounded by `n`) -/
+def Page.handle (fuel : Nat) : Nat → Page F → Option (Page F)
+  | 0, _ => none
+  | n + 1, p =>
+    let (outs, js) := p.js.takeOutput
+    let p := { p with js := js, ui := p.ui ++ outs.map showRecord }
+    match js.getState with
+    | none => none
+    | some .idle => some { p with ui := p.ui ++ [("prompt", if p.interactive then "] ".toList else "<disabled>".toList)] }
+    | some .awaitingInput => some { p with ui := p.ui ++ [("prompt", "? ".toList)] }
+    | some .errored =>
+      match js.latest with
+      | none => none
+      | some err =>
+        let ls := splitOnLF err
+        let shown : Ui := ls.zipIdx.map fun (l, i) => (if i == 0 then "error" else "error-context", l ++ ['\n'])
+        Page.handle fuel n { p with js := { js with latest := none }, ui := p.ui ++ shown }
+    | some .running =>
+      match js.continueEvaluating fuel with
+      | none => none
+      | some js' => some { p with js := js', ticks := p.ticks + 1 }
+
+/-- JavaScript `String.prototype.trim` leaves nothing -/
+def jsBlank (line : Str) : Bool := line.all fun c => isUnicodeWs c || c.toNat == 0xFEFF
+
+def loadLines (fuel : Nat) : List Str → Js F → Option (Js F × Bool)
+  | [], j => some (j, false)
+  | l :: ls, j =>
+    if jsBlank l then loadLines fuel ls j
+    else
+      match l with
+      | c :: _ =>
+        if !isAsciiDigit c then loadLines fuel ls j
+        else
+          match j.startEvaluating fuel l with
+          | none => none
+          | some j' => if j'.getState == some .errored then some (j', true) else loadLines fuel ls j'
+      | [] => loadLines fuel ls j
+
+/-- page start-up with a program file: `loadAndRunSourceCode` then `start()` -/
+def Page.load (fuel : Nat) (text : Str) (p : Page F) : Option (Page F) :=
+  match loadLines fuel (splitLF text) p.js with
+  | none => none
+  | some (j, stopped) =>
+    let j' := if stopped then some j else j.startEvaluating fuel "RUN".toList
+    match j' with
+    | none => none
+    | some j' => Page.handle fuel 4 { p with js := j', interactive := false }
+
+/-- `onSubmitInput` + `submitUserInput` -/
+def Page.submit (fuel : Nat) (input : Str) (p : Page F) : Option (Page F) :=
+  match p.js.getState with
+  | none => none
+  | some .idle =>
+    match p.js.startEvaluating fuel input with
+    | none => none
+    | some j => Page.handle fuel 4 { p with js := j }
+  | some .awaitingInput =>
+    match p.js.provideInput input with
+    | none => none
+    | some j => Page.handle fuel 4 { p with js := j }
+  | some _ => some p
+
+/-- `breakAtCurrentLocation` -/
+def Page.break (fuel : Nat) (p : Page F) : Option (Page F) :=
+  match p.js.getState with
+  | none => none
+  | some .awaitingInput => Page.handle fuel 4 { p with js := p.js.breakAt, interactive := true }
+  | some .running => Page.handle fuel 4 { p with js := p.js.breakAt, interactive := true }
+  | some _ => some p
+
+/-- a scheduled timer callback fires -/
+def Page.tick (fuel : Nat) (p : Page F) : Option (Page F) :=
+  if p.ticks == 0 then some p else Page.handle fuel 4 { p with ticks := p.ticks - 1 }
+
 /-- what the server does with a document -/
 def lspAnalyze (fuel : Nat) (doc : Str) : Analysis F := analyzeFile fuel (splitDocumentLines doc)
 
